@@ -178,6 +178,21 @@ def decay_case(part, item):
                            f'{prev})', {'kind': 'decay', 'cap': cap, 'k': k})
             return
         prev = v
+    # the schedule is a function of the step alone: the SAME object queried
+    # with decreasing and with interleaved steps (roll-back, one schedule
+    # shared by two preconditioners)
+    ks = [k for k in range(max(lo, 0), hi)][::max(1, (hi - lo) // 400)]
+    order = ks[::-1] + [k for pair in zip(ks[::-1], ks) for k in pair]
+    for k in order:
+        part.count('evaluations')
+        v = f(k)
+        exp = min(1 - 1 / max(k, 1), cap)
+        if v != exp:
+            part.violation('decay:history-dependent', f'cap={cap}: f({k}) = '
+                           f'{v!r} after larger steps had been queried, '
+                           f'expected {exp!r}',
+                           {'kind': 'decay', 'cap': cap, 'k': k})
+            return
     part.seen('nontrivial', ('decay', cap, lo))
 
 
@@ -209,7 +224,7 @@ def main(run: core.Run):
         'reference (exact float equality; states deduplicated by '
         'hyper-parameter tuple); constructor: 7 x 64 (callable parameter, '
         f'subset) pairs; exp_decay_factor_averaging for every k in -3..{kmax}'
-        ' x 12 caps (incl. non-integer 1/(1-cap)); non-trivial = non-empty subsets, ctor pairs, decay '
+        ' x 12 caps (incl. non-integer 1/(1-cap)), ascending, then descending and interleaved on the same schedule object; non-trivial = non-empty subsets, ctor pairs, decay '
         'ranges')
     run.sample({'subset': ['damping', 'inv_update_steps'],
                 'history': ['step', 'adv', 'step3', 'step']})
